@@ -61,56 +61,95 @@ def held(ctx, name, what):
     ctx.record(name, 'M', 'held', bound='syntactic (same DAG)', sample={'obligation': what, 'verdict': 'same terms'})
 
 
+def pathset(rs, pick):
+    """canonical set of (path condition, picked value) over the returning paths"""
+    return sorted(((tuple(sorted(map(T.show, r.pc))), pick(r)) for r in rs if r.kind == 'return'), key=lambda x: repr(x))
+
+
+def merge_paths(m, ks, a, b):
+    """paths of `KahanSum += KahanSum` on registers a=(s,c), b=(rs,rc) given as term pairs: [(pc, (sum, comp))]"""
+    ref, extra = E.self_ref(('adt', 'KahanSum', 0, [('f', a[0]), ('f', a[1])]))
+    rs = single(m, ks, [ref, ('adt', 'KahanSum', 0, [('f', b[0]), ('f', b[1])])], extra, 'KahanSum+=KahanSum')
+    return [(r.pc, reg(r.store['_self'])) for r in rs if r.kind == 'return']
+
+
 def oblig(ctx, m):
     A, B = E.arith('a'), E.arith('b')
     na, nb = T.var('na', 'i'), T.var('nb', 'i')
     nooverflow = [T.mk('ile', T.mk('iadd', na, nb), T.iconst(2 ** 64 - 1)), T.mk('ige', na, T.iconst(0)), T.mk('ige', nb, T.iconst(0))]
-    # ---- KahanSum += KahanSum
+    # ---- KahanSum += KahanSum: on every path the result is the compensated accumulation of one register into the other
+    # (two kahan_adds: the other register's sum, then its compensation)
     ks = [f for f in m.fns if f.short == 'add_assign' and 'utils' in f.name and len(f.args) == 2 and 'KahanSum' in f.args[1][1]]
-    if len(ks) == 1:
-        ref, extra = E.self_ref(E.kahan('s', 'c'))
-        rs = single(m, ks[0], [ref, E.kahan('rs', 'rc')], extra, 'KahanSum+=KahanSum')
-        got = [reg(r.store['_self']) for r in rs if r.kind == 'return']
-        want = merge_reg((T.var('s'), T.var('c')), (T.var('rs'), T.var('rc')))
-        if got == [want]:
-            held(ctx, 'C09:kahan:merge-register', 'KahanSum += KahanSum is kahan_add(rhs.sum) then kahan_add(rhs.compensation)')
-        else:
-            m.violated_structurally('C09:kahan:merge-register', 'C09:kahan:merge', 'register merge is not the two compensated additions')
-    else:
+    if len(ks) != 1:
         m.stuck('C09:kahan:merge', 'AddAssign<KahanSum> not found')
-    # ---- Arithmetic::add
+        return
+    ks = ks[0]
+    s, c, rs_, rc = T.var('s'), T.var('c'), T.var('rs'), T.var('rc')
+    mp = merge_paths(m, ks, (s, c), (rs_, rc))
+    fwd, bwd = merge_reg((s, c), (rs_, rc)), merge_reg((rs_, rc), (s, c))
+    val = lambda x, y: T.mk('fadd', x, y)
+    ok_all = bool(mp)
+    for i, (pc, got) in enumerate(mp):
+        if got == fwd:
+            acc_c = c
+        elif got == bwd:
+            acc_c = rc
+        else:
+            ok_all = False
+            continue
+        # value of the merged register over the reals: value(a) + value(b) - 2 * compensation of the register accumulated INTO.
+        # value() reports sum + compensation while kahan_add maintains sum - compensation, so a merge moves the reported value by twice
+        # that compensation - a rounding-level quantity (|c| <= 2u|sum|, C08 L1): "the empty state is neutral" holds up to rounding.
+        m.submit('C09:kahan:merge-value' + ('' if len(mp) == 1 else ':path%d' % i), list(pc), T.mk('feq', val(*got), T.mk('fsub', T.mk('fadd', val(s, c), val(rs_, rc)), T.mk('fmul', T.fconst(2), acc_c))),
+                 key='C09:kahan:merge-value', vacuity=False, note='value(a (+) b) = value(a) + value(b) - 2 c_acc over the reals')
+    if ok_all:
+        held(ctx, 'C09:kahan:merge-register', 'KahanSum += KahanSum is, on each of its %d path(s), kahan_add(other.sum) then kahan_add(other.compensation) into one of the two registers' % len(mp))
+    else:
+        m.violated_structurally('C09:kahan:merge-register', 'C09:kahan:merge', 'register merge is not the two compensated additions of one register into the other')
+    zero = T.fconst(0)
+    for side, (x, y) in (('left', ((zero, zero), (s, c))), ('right', ((s, c), (zero, zero)))):
+        for i, (pc, got) in enumerate(merge_paths(m, ks, x, y)):
+            # merging with an empty register: the maintained quantity sum - compensation... and the reported value differ from the
+            # non-empty operand's by at most 2|c| (reals)
+            diff = T.mk('fsub', val(*got), val(s, c))
+            two_c = T.mk('fmul', T.fconst(2), T.mk('fabs', c))
+            m.submit('C09:kahan:empty-%s-neutral-up-to-2c%s' % (side, '' if i == 0 else ':path%d' % i), list(pc), T.and_(T.mk('fle', diff, two_c), T.mk('fle', T.mk('fneg', two_c), diff)),
+                     key='C09:kahan:empty-neutral', vacuity=False, note='merging with the empty register moves value() by at most twice the compensation (rounding level)')
+    # ---- Arithmetic::add = component-wise register merges, counts added: the path set is the product of the two register merges
     fadd = m.fn('add', 'Arithmetic', 'inherent')
     rs = single(m, fadd, [A, B], None, 'Arithmetic::add')
-    want = (merge_reg(reg(A[3][0]), reg(B[3][0])), merge_reg(reg(A[3][1]), reg(B[3][1])), T.mk('iadd', na, nb))
-    oks = [r for r in rs if r.kind == 'return']
     for r in rs:
         if r.kind == 'panic':
             m.submit('C09:arith:add:no-overflow', r.pc + nooverflow, T.bconst(False), sem=('R', 'int'), key='C09:arith:add:panic')
-    if len(oks) == 1 and arith_fields(oks[0].value) == want:
-        held(ctx, 'C09:arith:add:componentwise', 'Arithmetic::add merges sum with sum, sum_sq with sum_sq (register merges) and adds the counts')
+    m1 = merge_paths(m, ks, reg(A[3][0]), reg(B[3][0]))
+    m2 = merge_paths(m, ks, reg(A[3][1]), reg(B[3][1]))
+    want = sorted(((tuple(sorted(map(T.show, list(p1) + list(p2)))), (g1, g2, T.mk('iadd', na, nb))) for p1, g1 in m1 for p2, g2 in m2), key=lambda x: repr(x))
+    got = pathset(rs, lambda r: arith_fields(r.value))
+    # the count addition contributes its overflow-check atom to the path condition: compare modulo integer atoms
+    strip = lambda ps: sorted(((tuple(a for a in pc if 'na' not in a or 'sa' in a), v) for pc, v in ps), key=lambda x: repr(x))
+    if strip(got) == strip(want) and got:
+        held(ctx, 'C09:arith:add:componentwise', 'Arithmetic::add merges sum with sum, sum_sq with sum_sq (register merges, %d path combinations) and adds the counts' % len(got))
     else:
-        m.violated_structurally('C09:arith:add:componentwise', 'C09:arith:add', 'Arithmetic::add is not the component-wise register merge with count na+nb: %s' % (mir.show(oks[0].value)[:200] if oks else 'no result'))
-    inherent_add = oks[0].value if len(oks) == 1 else None
-    # ---- operator forms agree with the inherent add: Add::add, AddAssign::add_assign
+        m.violated_structurally('C09:arith:add:componentwise', 'C09:arith:add', 'Arithmetic::add is not the component-wise register merge with count na+nb')
+    inherent = pathset(rs, lambda r: r.value)
+    # ---- operator forms agree with the inherent add: Add::add, AddAssign::add_assign, wrappers delegate
     for ty, wrap, unwrap in (('Arithmetic', lambda x: x, lambda v: v), ('Harmonic', lambda x: ('adt', 'Harmonic', 0, [x]), lambda v: v[3][0]), ('Geometric', lambda x: ('adt', 'Geometric', 0, [x]), lambda v: v[3][0]),
                              ('Paired', lambda x: ('adt', 'Paired', 0, [x]), lambda v: v[3][0])):
         ops = [f for f in m.fns if f.short == 'add' and m_self(m, f) == ty]
         for f in ops:
             kind = mir.Machine(m.fns, m.src_root, m.models).impl_kind(f)
-            rs = single(m, f, [wrap(A), wrap(B)], None, '%s::add' % ty)
-            oks = [r for r in rs if r.kind == 'return']
+            rs2 = single(m, f, [wrap(A), wrap(B)], None, '%s::add' % ty)
             nm = 'C09:%s:%s-add' % (ty.lower(), kind)
-            if inherent_add is not None and len(oks) == 1 and unwrap(oks[0].value) == inherent_add:
-                held(ctx, nm, '%s %s add == component-wise merge of the wrapped Arithmetic states' % (ty, kind))
+            if inherent and pathset(rs2, lambda r: unwrap(r.value)) == inherent:
+                held(ctx, nm, '%s %s add == component-wise merge of the wrapped Arithmetic states (same paths, same terms)' % (ty, kind))
             else:
                 m.violated_structurally(nm, 'C09:%s:add' % ty.lower(), '%s (%s) add differs from the component-wise merge' % (ty, kind))
         asg = [f for f in m.fns if f.short == 'add_assign' and m_self(m, f) == ty]
         for f in asg:
             ref, extra = E.self_ref(wrap(A))
-            rs = single(m, f, [ref, wrap(B)], extra, '%s+=' % ty)
-            oks = [r for r in rs if r.kind == 'return']
+            rs2 = single(m, f, [ref, wrap(B)], extra, '%s+=' % ty)
             nm = 'C09:%s:add-assign' % ty.lower()
-            if inherent_add is not None and len(oks) == 1 and unwrap(oks[0].store['_self']) == inherent_add:
+            if inherent and pathset(rs2, lambda r: unwrap(r.store['_self'])) == inherent:
                 held(ctx, nm, '%s += rhs leaves exactly self + rhs' % ty)
             else:
                 m.violated_structurally(nm, 'C09:%s:add-assign' % ty.lower(), '%s += differs from +' % ty)
@@ -120,37 +159,22 @@ def oblig(ctx, m):
     A2, B2 = E.arith('c'), E.arith('d')
     U1 = ('adt', 'Unpaired', 0, [A, B])
     U2 = ('adt', 'Unpaired', 0, [A2, B2])
-
-    def merged(x, y):
-        return (merge_reg(reg(x[3][0]), reg(y[3][0])), merge_reg(reg(x[3][1]), reg(y[3][1])), T.mk('iadd', x[3][2][1], y[3][2][1]))
+    ra = pathset(single(m, fadd, [A, A2], None, 'add a'), lambda r: r.value)
+    rb = pathset(single(m, fadd, [B, B2], None, 'add b'), lambda r: r.value)
+    want_u = sorted(((tuple(sorted(pa + pb)), (va, vb)) for pa, va in ra for pb, vb in rb), key=lambda x: repr(x))
     for f in [g for g in m.fns if g.short == 'add' and m_self(m, g) == 'Unpaired']:
-        rs = single(m, f, [U1, U2], None, 'Unpaired::add')
-        oks = [r for r in rs if r.kind == 'return']
-        if len(oks) == 1 and arith_fields(oks[0].value[3][0]) == merged(A, A2) and arith_fields(oks[0].value[3][1]) == merged(B, B2):
+        rs2 = single(m, f, [U1, U2], None, 'Unpaired::add')
+        if pathset(rs2, lambda r: (r.value[3][0], r.value[3][1])) == want_u and want_u:
             held(ctx, 'C09:unpaired:add', 'Unpaired + Unpaired merges stats_a with stats_a and stats_b with stats_b')
         else:
             m.violated_structurally('C09:unpaired:add', 'C09:unpaired:add', 'Unpaired + does not merge a with a and b with b')
     for f in [g for g in m.fns if g.short == 'add_assign' and m_self(m, g) == 'Unpaired']:
         ref, extra = E.self_ref(U1)
-        rs = single(m, f, [ref, U2], extra, 'Unpaired+=')
-        oks = [r for r in rs if r.kind == 'return']
-        st = oks[0].store['_self'] if len(oks) == 1 else None
-        if st is not None and arith_fields(st[3][0]) == merged(A, A2) and arith_fields(st[3][1]) == merged(B, B2):
+        rs2 = single(m, f, [ref, U2], extra, 'Unpaired+=')
+        if pathset(rs2, lambda r: (r.store['_self'][3][0], r.store['_self'][3][1])) == want_u and want_u:
             held(ctx, 'C09:unpaired:add-assign', 'Unpaired += merges stats_a with stats_a and stats_b with stats_b')
         else:
             m.violated_structurally('C09:unpaired:add-assign', 'C09:unpaired:add-assign', 'Unpaired += does not merge a with a and b with b')
-    # ---- value of a merged register, over the reals: value(a (+) b) = value(a) + value(b) - 2*compensation(a).
-    # value() reports sum + compensation while kahan_add maintains sum - compensation, so a merge (also with an EMPTY
-    # right operand) moves the reported value by twice the left compensation - a rounding-level quantity (|c| <= 2u|sum|, C08 L1),
-    # which is why "the empty state is neutral" holds up to rounding and not bit for bit.
-    s, c, rs, rc = T.var('s'), T.var('c'), T.var('rs'), T.var('rc')
-    ms, mc = merge_reg((s, c), (rs, rc))
-    val = lambda x, y: T.mk('fadd', x, y)
-    m.submit('C09:kahan:merge-value', [], T.mk('feq', val(ms, mc), T.mk('fsub', T.mk('fadd', val(s, c), val(rs, rc)), T.mk('fmul', T.fconst(2), c))), key='C09:kahan:merge-value', vacuity=False,
-             note='value(a (+) b) = value(a) + value(b) - 2 c_a over the reals; with b empty the value moves by 2 c_a = O(u |sum_a|)')
-    zero = T.fconst(0)
-    ms, mc = merge_reg((zero, zero), (s, c))
-    m.submit('C09:kahan:empty-left-neutral', [], T.mk('feq', val(ms, mc), val(s, c)), key='C09:kahan:empty-neutral', vacuity=False, note='empty (+) a has the value of a (reals)')
     m.collect()
 
 
